@@ -173,6 +173,16 @@ def check(ctx):
     ctx.ob("ALG.blelloch.downsweep-start", st0[0] if st0 else bl, "down-sweep starts at max(2, least power of two >= n_vals // 2)", verdict, how)
     ok = bool(find("stride = stride2 // 2", bl))
     ctx.ob("ALG.blelloch.downsweep-start.half", bl, "first down-sweep stride = stride2 // 2", ok)
+    # every partial result of a scan with an explicit dtype is accumulated in that dtype: the block scans
+    # (func(x, axis=axis, dtype=dtype) in _prefixscan_first/_combine) AND the block totals (preop)
+    pre = find("preop = partial(preop, dtype=dtype)", bl)
+    mb = find("batches = x.map_blocks(preop, axis=axis, keepdims=True, dtype=dtype)", bl)
+    ok = len(pre) == 1 and len(mb) == 1 and dominates(bl, pre[0][0], mb[0][0]) or (len(mb) == 1 and len(pre) == 1 and pre[0][0].lineno < mb[0][0].lineno)
+    ctx.ob("ALG.blelloch.totals-dtype", bl, "block totals are computed by preop with dtype=dtype (when preop accepts one), like the block scans", bool(ok), "" if ok else "the totals are accumulated in the input dtype while the blocks are scanned in the requested dtype: with float data and dtype='i8' the blelloch result differs from the sequential one and from NumPy")
+    for hn in ("_prefixscan_first", "_prefixscan_combine"):
+        hf = mod.func(hn)
+        ok = "func(x, axis=axis, dtype=dtype)" in unparse(hf)
+        ctx.ob("ALG.blelloch.scan-dtype", hf, f"{hn} scans its block with func(x, axis=axis, dtype=dtype)", ok)
     # operand order (binop need not commute): earlier block first
     zips = [c for c in calls(bl, "zip") if len(c.args) == 3 and unparse(c.args[0]) == "indices[i]"]
     ok = len(zips) == 2 and all(unparse(c.args[1]) == "prefix_vals[i - stride]" and unparse(c.args[2]) == "prefix_vals[i]" for c in zips) and len(find("dsk[key] = (binop, left_val, right_val)", bl)) == 2
